@@ -106,6 +106,10 @@ class Ctx:
             from .exprdiff import best_substitutions
 
             subs = best_substitutions(derived_expr, accepted) or []
+            # `.X` where `.Y` is specified and one is a PURE ALIAS of the other in the class under analysis
+            # (`_dimension -> return self._rows_dimension`): the same member under two names
+            if subs and all(self._aliased(construct, got, spec) for _p, got, spec in subs):
+                return self.ob(rule, construct, u(derived_expr), exp, True, detail + " (through pure alias properties)")
             names = self._package_names()
             # only ATTRIBUTE tokens ('.name'): operator tokens ('Lt') and constants are never "renamed"
             stale = [spec for _p, _got, spec in subs if isinstance(spec, str) and spec.startswith(".") and spec[1:] not in names and spec[1:].isidentifier()]
@@ -113,6 +117,44 @@ class Ctx:
                 return self.ob(rule, construct, u(derived_expr), exp, None, f"the specified name(s) {sorted(set(stale))} no longer occur in the package (renamed): spelling rule not applicable")
             return self.ob(rule, construct, u(derived_expr), exp, False, (detail + " -- " if detail else "") + why)
         return self.ob(rule, construct, u(derived_expr), exp, None, why)
+
+    def _aliased(self, construct: str, got, spec) -> bool:
+        from .symex import Expander
+
+        if not (isinstance(got, str) and isinstance(spec, str) and got.startswith(".") and spec.startswith(".")):
+            return False
+        try:
+            short, rest = construct.split("::", 1)
+            cname = rest.split(".")[0].split(" ")[0]
+            ci = self.repo.cls(short, cname)
+        except Exception:
+            return False
+
+        def resolve(name):
+            seen = set()
+            while name not in seen:
+                seen.add(name)
+                m = self.repo.lookup(ci, name)
+                if m is None or m.kind not in ("lazyproperty", "property"):
+                    break
+                nxt = Expander._pure_alias(m)
+                if nxt is None:
+                    break
+                name = nxt
+            return name
+
+        # every class of the module that derives from ci may carry the alias (mixins parameterised by subclasses)
+        a, b = got[1:], spec[1:]
+        if resolve(a) == resolve(b):
+            return True
+        for sub in ci.all_subclasses() if hasattr(ci, "all_subclasses") else []:
+            ci_saved, ci = ci, sub
+            try:
+                if resolve(a) == resolve(b):
+                    return True
+            finally:
+                ci = ci_saved
+        return False
 
     def _package_names(self):
         """every identifier (def / class / attribute / name) that occurs in the analysed package"""
